@@ -39,7 +39,7 @@ for f in eval_logs:
 head = subprocess.check_output(['git', '-C', '/repo', 'rev-parse', '--short', 'HEAD']).decode().strip()
 for key, d in descr.items():
     p, k = key.split('/')
-    src = f'/tmp/seed-{p}/out/{k}'
+    src = d.get('src') or f'/tmp/seed-{p}/out/{k}'
     dst = f'/verif/seeded/{p}-{k}'
     r = d.get('result') or results.get(key)
     if not r or 'demo_without_patch_exit=0 demo_with_patch_exit=101 suite_missing=[]' not in r:
@@ -52,6 +52,8 @@ for key, d in descr.items():
     os.makedirs(dst, exist_ok=True)
     for fn in ('patch.diff', 'demo.rs', 'notes.md'):
         shutil.copy(f'{src}/{fn}', f'{dst}/{fn}')
+    if d.get('src'):
+        shutil.copy(f'/tmp/seed-{p}/out/{k}/patch.diff', f'{dst}/patch.orig.diff')
     prop = p.rstrip('b')
     feat = ' --features verif' if d.get('features') else ''
     meta = {
